@@ -1,4 +1,8 @@
 (* Token-level entry point of property C04: the DNS case kinds are shared by
    C14, C04 and C03 (Model/DnsEntry.v); each harness emits its own mix. *)
 From Erbium Require Import Lib.Base Model.DnsEntry.
-Definition check_C04 (ts : list N) : list N := check_dns ts.
+Definition check_C04 (ts : list N) : list N :=
+  match ts with
+  | 8 :: r => check_k8g true r
+  | _ => check_dns ts
+  end.
